@@ -742,7 +742,11 @@ class ExprMixin:
             if k is not None:
                 yield from self.ev(n.body if k else n.orelse, s, fx)
                 continue
-            if (isinstance(n.body, ast.Constant) and n.body.value is None) != (isinstance(n.orelse, ast.Constant) and n.orelse.value is None):
+            def _state_arm(x):
+                return isinstance(x, ast.Attribute) and x.attr in self.state_slots
+            if ((isinstance(n.body, ast.Constant) and n.body.value is None) != (isinstance(n.orelse, ast.Constant) and n.orelse.value is None)) \
+                    or (_state_arm(n.body) and _state_arm(n.orelse)):
+                # (also: the next protocol state chosen by a conditional expression - each state is a history of its own)
                 # `x if c else None`: a value-or-nothing result that is tested for None later - the path forks on c, so that the
                 # side that has the value also has the fact c
                 text = ast.unparse(n.test)
